@@ -20,6 +20,8 @@ PROJECT_FILES = {
                     # module-level names made through global declarations, in a function called at import and in a class body
                     'def _init():\n    global sg\n    sg = _v()\n_init()\nclass _K:\n    global sk\n    sk = _v()\n'),
     'pkg/star2.py': 'from vf_rt import v as _v\nx = _v()\ny = _v()\nsc = _v()\n',
+    # __all__ built in two steps, a public name outside it
+    'pkg/star3.py': "from vf_rt import v as _v\n__all__ = ['ta1']\nta1 = _v()\nta2 = _v()\ntb_out = _v()\n__all__ += ['ta2']\n",
     'pkg/sub/__init__.py': '',
     'pkg/sub/deep.py': 'from vf_rt import v\nda = v()\n',
     'app/__init__.py': '',
@@ -55,6 +57,7 @@ IMPORTS_PROJECT = [
     ('from .sib import s1 as y, s2', ['y', 's2'], False),
     ('from pkg.star import *', ['sa', 'sb', 'sf', 'sg', 'sk'], True),
     ('from pkg.star2 import *', ['x', 'y', 'sc'], True),
+    ('from pkg.star3 import *', ['ta1', 'ta2'], True),
     ('from .sib import *', ['s1', 's2'], True),
 ]
 IMPORTS_STDLIB = [   # each binds a distinct object; used at most once per program
@@ -356,6 +359,19 @@ class Gen(object):
 
     def s_walrus(self, ind, scope, depth, in_loop):
         n = self.pick_var(scope)
+        if self.rng.random() < 0.3 and self.dec_ok(2):
+            # a chain of boolean operands: a later operand reads what an earlier one bound
+            self.decisions += 2
+            op = self.rng.choice(['and', 'or'])
+            first = 'q(%s)' % self.readable(scope) if self.rng.random() < 0.7 else '(%s := %s)' % (n, self.expr(scope, avoid=(n,)))
+            if first.startswith('q('):
+                self.emit(ind, 'v(%s %s (%s := %s) %s v(%s))' % (first, op, n, self.expr(scope, avoid=(n,)), op, n))
+                scope.add(n, definite=False)
+            else:
+                self.emit(ind, 'v(%s %s v(%s) %s v(%s))' % (first, op, n, op, n))
+                scope.add(n)
+            self.features.add('walrus_in_boolean_chain')
+            return
         self.emit(ind, 'v((%s := %s), %s)' % (n, self.expr(scope, avoid=(n,)), self.readable(scope)))
         scope.add(n)
         self.features.add('walrus')
@@ -432,6 +448,10 @@ class Gen(object):
             e = 'ex(%s %s)' % (elt, gens)
         self.features.add('comp_' + kind)
         if tgt:
+            if tgt in scope.visible_definite() and rng.random() < 0.25:
+                # the old value of the target is read after the comprehension, in the same statement
+                e = 'v(%s, %s)' % (e, tgt)
+                self.features.add('target_read_after_comprehension_in_its_value')
             self.emit(ind, '%s = %s' % (tgt, e))
             scope.add(tgt)
         else:
@@ -463,6 +483,8 @@ class Gen(object):
     def s_if(self, ind, scope, depth, in_loop, force_else=False):
         if not self.dec_ok():
             return self.s_assign(ind, scope, depth, in_loop)
+        if self.rng.random() < 0.12 and self.dec_ok(3) and not force_else:
+            return self.s_if_chain(ind, scope, depth, in_loop)
         self.decisions += 1
         self.emit(ind, 'if %s:' % self.cond(scope))
         outs = [self.branch(scope, lambda: self.block(ind + 1, scope, depth + 1, in_loop))]
@@ -481,6 +503,37 @@ class Gen(object):
             has_else = True
         if has_else:
             scope.definite |= set.intersection(*outs)
+
+    def s_if_chain(self, ind, scope, depth, in_loop):
+        """the test is a chain of boolean operands, a middle one binds a name: the name is bound in the branch that
+        is taken only when every operand was evaluated, possibly unbound in the other branch and afterwards"""
+        rng = self.rng
+        self.decisions += 3
+        n = self.pick_var(scope)
+        op = rng.choice(['and', 'or'])
+        e = self.expr(scope, avoid=(n,))
+        kw = 'while' if (rng.random() < 0.25 and not in_loop and self.dec_ok(2)) else 'if'
+        self.emit(ind, '%s q(%s) %s (%s := %s) %s q(%s):' % (kw, self.readable(scope), op, n, e, op, n))
+        self.features.add('walrus_in_boolean_chain_test_' + kw)
+        was = n in scope.definite
+
+        def sure():
+            scope.definite.add(n)
+            self.emit(ind + 1, 'v(%s)' % n)
+            self.block(ind + 1, scope, depth + 1, in_loop or kw == 'while')
+
+        def unsure():
+            self.block(ind + 1, scope, depth + 1, in_loop or kw == 'while')
+        if n not in scope.names:
+            scope.names.append(n)
+        if kw == 'while':
+            self.decisions += 2
+        outs = [self.branch(scope, sure if op == 'and' else unsure)]
+        if op == 'or' or rng.random() < 0.5:
+            self.emit(ind, 'else:')
+            outs.append(self.branch(scope, sure if op == 'or' else unsure))
+        if not was:
+            scope.definite.discard(n)
 
     def s_for(self, ind, scope, depth, in_loop):
         if not self.dec_ok():
@@ -834,6 +887,18 @@ class Gen(object):
             self.features.add('class_keyword')
         self.emit(ind, 'class %s%s:' % (name, '(%s)' % ', '.join(bases) if bases else ''))
         cs = Scope('class', scope, name)
+        if rng.random() < 0.2:
+            # a global declaration in a class body: the other names of the body still fall back to the outer ones
+            g = rng.choice(VARS)
+            self.emit(ind + 1, 'global %s' % g)
+            cs.declared.add(g)
+            self.features.add('global_in_class_body')
+            o = rng.choice([n for n in VARS if n != g])
+            if o in scope.visible_definite() and rng.random() < 0.6:
+                # an outer name read and then rebound in the same body
+                self.emit(ind + 1, '%s = v(%s)' % (o, o))
+                cs.add(o)
+                self.features.add('class_body_rebinds_outer_name_it_read')
         self.block(ind + 1, cs, depth + 1, False)
         scope.add(name)
         self.features.add('class')
